@@ -254,7 +254,7 @@ func c07r5(r *R) {
 			found = true
 			// installed as the filter only when domains are configured
 			eachInstr(cp, func(ins ssa.Instruction) {
-				if st, ok := ins.(*ssa.Store); ok && describe(st.Val) == "closure:"+fname(lit) {
+				if st, ok := ins.(*ssa.Store); ok && isClosureOf(describe(st.Val), lit) {
 					r.check(strings.HasSuffix(describe(st.Addr), ".MITMFilter") && guardedBy(st.Block(), eq("($0.config.MITMDomains != nil)")), "configureProxy#MITMFilter", st.Pos(), "mitm-domains filter installed iff configured", "MITM domain filter is installed as "+describe(st.Addr))
 				}
 			})
